@@ -41,10 +41,12 @@ type Task struct {
 type Scenario struct {
 	Seed     uint64 `json:"seed"`
 	Sub      int    `json:"sub"`
-	Mode     string `json:"mode"` // ring | proc
+	Mode     string `json:"mode"` // ring | proc | seq (one caller, ring buffer vs. the sequential reference model)
 	Cap      int    `json:"cap"`
 	FailItem int    `json:"fail_item"` // proc: id of the item whose execution fails, 0 = none
 	Tasks    []Task `json:"tasks"`
+	// SeqOps (mode seq): push / pull / close / reset, executed by one goroutine.
+	SeqOps []Op `json:"seq_ops,omitempty"`
 	// NoYield lists site names that do not park in this run (minimisation).
 	NoYield []string `json:"no_yield,omitempty"`
 }
@@ -59,6 +61,10 @@ func gen(seed uint64, tier string) Scenario {
 	}
 	caps := []int{1, 1, 2, 2, 4, 4, 8, 16, 32, 64, 128, 256}
 	sc.Cap = caps[r.Intn(len(caps))]
+	// a tenth of the runs: the sequential case (hash-derived so that no other choice moves)
+	if core.HS(seed, "c16.seq", "", 0)%100 < 10 {
+		return genSeq(seed, sc.Cap)
+	}
 	// Concurrency and history length are balanced so that the linearizability
 	// check stays tractable (concurrent unresolved pushes multiply FIFO states).
 	var np, maxPer int
@@ -112,6 +118,132 @@ func gen(seed uint64, tier string) Scenario {
 		}
 	}
 	return sc
+}
+
+// genSeq builds a sequential operation series for one caller: phases that fill the ring to a
+// seeded level (often exactly its capacity, or one below / above), drain part of it, close,
+// pull after the close, reset and go on. A Pull is generated only where the reference model
+// says it returns at once (something queued, or closed); no Push between Close and Reset
+// (the statement does not say what a push into a closed queue does).
+func genSeq(seed uint64, capacity int) Scenario {
+	r := core.NewRand(seed, "c16.seq")
+	sc := Scenario{Seed: seed, Sub: 1, Mode: "seq", Cap: capacity}
+	n, closed := 0, false // model: queued items, closed
+	item := 1
+	phases := r.Range(2, 8)
+	for p := 0; p < phases && len(sc.SeqOps) < 1500; p++ {
+		if closed {
+			for k := r.Range(0, 2); k > 0; k-- {
+				sc.SeqOps = append(sc.SeqOps, Op{Kind: "pull"})
+			}
+			if r.Bool(0.2) {
+				sc.SeqOps = append(sc.SeqOps, Op{Kind: "close"})
+			}
+			sc.SeqOps = append(sc.SeqOps, Op{Kind: "reset"})
+			n, closed = 0, false
+			continue
+		}
+		// fill
+		target := []int{capacity, capacity, capacity - 1, capacity + 1, capacity + 3, r.Range(0, capacity), 1}[r.Intn(7)]
+		for n2 := n; n2 < target; n2++ {
+			sc.SeqOps = append(sc.SeqOps, Op{Kind: "push", V: item})
+			item++
+			if n < capacity {
+				n++
+			}
+		}
+		// drain some
+		if n > 0 && r.Bool(0.7) {
+			k := []int{1, n, n / 2, r.Range(1, n)}[r.Intn(4)]
+			if k < 1 {
+				k = 1
+			}
+			for ; k > 0 && n > 0; k-- {
+				sc.SeqOps = append(sc.SeqOps, Op{Kind: "pull"})
+				n--
+			}
+		}
+		if r.Bool(0.6) {
+			sc.SeqOps = append(sc.SeqOps, Op{Kind: "close"})
+			n, closed = 0, true
+		}
+	}
+	if closed {
+		sc.SeqOps = append(sc.SeqOps, Op{Kind: "pull"})
+	}
+	return sc
+}
+
+// runSeq executes a sequential series against the reference model: a FIFO of at most Cap
+// items; Push is refused exactly when it holds Cap items; Close empties it and makes Pull
+// return false; Reset empties it and reopens it.
+func runSeq(sc *Scenario) (oc outcome) {
+	oc.probes = map[string]int{}
+	verifhook.Yield = nil
+	rb, err := ringbuffer.New(uint64(sc.Cap))
+	if err != nil {
+		oc.viol = core.Viol("c16/config", "ringbuffer.New(%d) failed: %v", sc.Cap, err)
+		return
+	}
+	var q []int
+	closed := false
+	fail := func(i int, f string, a ...any) {
+		if oc.viol == nil {
+			oc.viol = core.Viol("c16/sequential model", "capacity %d, operation #%d: %s", sc.Cap, i, fmt.Sprintf(f, a...))
+		}
+	}
+	for i, op := range sc.SeqOps {
+		oc.trace = append(oc.trace, op.Kind)
+		switch op.Kind {
+		case "push":
+			if closed {
+				continue // not generated; skipped if minimisation produced it
+			}
+			ok := rb.Push(op.V)
+			want := len(q) < sc.Cap
+			if ok != want {
+				fail(i, "Push(%d) returned %v with %d of %d slots in use", op.V, ok, len(q), sc.Cap)
+				return
+			}
+			if ok {
+				q = append(q, op.V)
+				if len(q) == sc.Cap {
+					oc.probes["seq_filled_to_capacity"] = 1
+				}
+			} else {
+				oc.probes["push_refused_full"] = 1
+			}
+		case "pull":
+			if len(q) == 0 && !closed {
+				continue // would block: not generated
+			}
+			v, ok := rb.Pull()
+			if len(q) > 0 {
+				if !ok || v.(int) != q[0] {
+					fail(i, "Pull returned (%v, %v), the oldest queued item is %d (queue %v)", v, ok, q[0], q)
+					return
+				}
+				q = q[1:]
+			} else if ok {
+				fail(i, "Pull returned item %v from a closed, emptied queue", v)
+				return
+			} else {
+				oc.probes["seq_pull_after_close"] = 1
+			}
+		case "close":
+			if len(q) == sc.Cap {
+				oc.probes["seq_close_when_full"] = 1
+			}
+			rb.Close()
+			q, closed = nil, true
+		case "reset":
+			rb.Reset()
+			q, closed = nil, false
+		}
+	}
+	oc.ops = len(sc.SeqOps)
+	oc.tasks = 1
+	return
 }
 
 // ---- controlled scheduler ------------------------------------------------
@@ -282,6 +414,7 @@ func runOne(sc *Scenario, seed uint64) (oc outcome) {
 	var lastExecEnd atomic.Int64
 	var consumerFrom atomic.Int64 // stamp from which the consumer may dequeue
 	var errExecuted atomic.Bool
+	var onErrBegin, onErrEnd atomic.Int64
 
 	if sc.Mode == "ring" {
 		var err error
@@ -295,6 +428,11 @@ func runOne(sc *Scenario, seed uint64) (oc outcome) {
 			BufferSize: sc.Cap,
 			OnError: func(_ context.Context, _ error) {
 				onErr.Add(1)
+				onErrBegin.Store(c.stamp.Add(1))
+				// the error handler takes a while (the library's own handlers block on a channel):
+				// a scheduling point inside it
+				c.yield("h.onerror")
+				onErrEnd.Store(c.stamp.Add(1))
 			},
 		}
 		proc.Initialize()
@@ -518,6 +656,13 @@ func runOne(sc *Scenario, seed uint64) (oc outcome) {
 				}
 			}
 		}
+		// ... the error report included
+		if closed && onErrBegin.Load() != 0 {
+			oc.probes["onerror_and_close"] = 1
+			if e := onErrEnd.Load(); e == 0 || e > closeRet {
+				fail("c16/after-close onerror", "OnError was still running (or had not finished) when Close returned (OnError %d..%d, Close returned at %d)", onErrBegin.Load(), e, closeRet)
+			}
+		}
 		// after an item fails nothing else runs; OnError exactly once
 		if errExecuted.Load() {
 			if len(eo) == 0 || eo[len(eo)-1] != sc.FailItem {
@@ -704,7 +849,12 @@ func run(t *testing.T, sc Scenario) *core.Result {
 		}
 		for i := 0; i < sub; i++ {
 			core.Beat()
-			oc := runOne(&sc, sc.Seed+uint64(i))
+			var oc outcome
+			if sc.Mode == "seq" {
+				oc = runSeq(&sc)
+			} else {
+				oc = runOne(&sc, sc.Seed+uint64(i))
+			}
 			res.Steps += len(oc.trace)
 			for k, v := range oc.probes {
 				res.Probes[k] += v
@@ -713,7 +863,7 @@ func run(t *testing.T, sc Scenario) *core.Result {
 			for _, s := range oc.trace {
 				traceSig = core.HS(traceSig, "t", s)
 			}
-			if len(oc.trace) >= 4 && oc.tasks >= 2 {
+			if len(oc.trace) >= 4 && (oc.tasks >= 2 || sc.Mode == "seq") {
 				interleaved = true
 			}
 			if sample == nil {
@@ -779,6 +929,21 @@ func shrink(sc Scenario) []Scenario {
 		c.NoYield = append([]string(nil), sc.NoYield...)
 		return c
 	}
+	if sc.Mode == "seq" {
+		// drop the second half, then single operations
+		n := len(sc.SeqOps)
+		if n > 1 {
+			c := clone()
+			c.SeqOps = append([]Op(nil), sc.SeqOps[:n/2]...)
+			out = append(out, c)
+		}
+		for i := 0; i < n && i < 400; i++ {
+			c := clone()
+			c.SeqOps = append(append([]Op(nil), sc.SeqOps[:i]...), sc.SeqOps[i+1:]...)
+			out = append(out, c)
+		}
+		return out
+	}
 	// single sub-schedule: try each sub seed alone
 	if sc.Sub > 1 {
 		for i := 0; i < sc.Sub; i++ {
@@ -841,8 +1006,8 @@ func init() {
 	f := core.Register("C16", gen, run, shrink)
 	f.Real = []string{"pkg/ringbuffer.RingBuffer", "internal/asyncprocessor.Processor (through a verif-tagged type alias)", "sync.Mutex / sync.Cond of the Go runtime"}
 	f.Simulated = []string{"goroutine interleaving: every goroutine parks at every lock acquisition, unlock->broadcast gap, processor step and task operation; the scheduler releases exactly one per step, chosen by H(seed, step)"}
-	f.Excluded = []string{"RingBuffer.Reset (not part of the statement)", "capacity 0"}
-	f.Rule = "scenario = capacity (power of two 1..256) x 1..8 producer scripts x owner/consumer/closer scripts x optional failing item; each scenario is run under 16 schedule seeds in one bubble; a run is non-trivial when >= 2 tasks and >= 4 scheduling decisions; distinct = distinct hash of the sequence of (task, site) scheduling decisions"
+	f.Excluded = []string{"RingBuffer.Reset in the concurrent modes (sequential mode only)", "capacity 0", "Push between Close and Reset (the statement is silent about it)"}
+	f.Rule = "scenario = capacity (power of two 1..256) x 1..8 producer scripts x owner/consumer/closer scripts x optional failing item; each scenario is run under 16 schedule seeds in one bubble; a tenth of the scenarios are the sequential case instead: one caller, phases filling the ring to a seeded level (often exactly the capacity, one below, one above), draining, Close, Pull after Close, Reset, compared operation by operation with a reference FIFO; a run is non-trivial when >= 2 tasks and >= 4 scheduling decisions; distinct = distinct hash of the sequence of (task, site) scheduling decisions"
 	f.Assumptions = []string{
 		"interleavings are explored at the granularity of the inserted yield sites (all lock acquisitions and unlock->broadcast gaps of ringbuffer, all steps of asyncprocessor); code between two sites runs atomically with respect to the other controlled goroutines",
 		"Start and Close are issued by one owner task, as the library does (the processor's running flag is not synchronised)",
